@@ -37,6 +37,8 @@ type scheduler struct {
 	lockPoints bool      // Lock/RLock calls of /repo code are scheduling points
 	txnPoints  bool      // Badger transaction starts of /repo code are scheduling points
 	switches int
+	preempted int // preemptive switches made so far
+	harnessGos int // h.Go calls so far
 }
 
 func newScheduler(p *pathState) *scheduler {
@@ -186,6 +188,7 @@ func (s *scheduler) yield(what string) {
 		return
 	}
 	s.preempt--
+	s.preempted++
 	s.p.note("preempt at %s: thread %d -> %d", what, s.cur.id, cands[k-1].id)
 	s.transfer(cands[k-1])
 }
@@ -201,6 +204,16 @@ func (s *scheduler) spawn(fr *frame, pos token.Pos, fn value, args []value) {
 	i := fr.i
 	go func() {
 		<-t.resume
+		if !s.killed && s.symbolic {
+			// when the thread first runs: what a native replay holds its goroutine back for
+			var fin []string
+			for _, o := range s.threads {
+				if o.state == 2 {
+					fin = append(fin, fmt.Sprint(o.id))
+				}
+			}
+			s.p.note("thread %d starts after %d preemptions; finished: %s", t.id, s.preempted, strings.Join(fin, ","))
+		}
 		defer close(t.done)
 		defer func() {
 			r := recover()
